@@ -817,6 +817,14 @@ func mergeMaps(dst, src map[string]any) (map[string]any, bool) {
 
 	if dst == nil {
 		dst = make(map[string]any)
+	} else {
+		// Merge into a copy: the original (e.g. the value cached in a topic) must stay intact
+		// in case saving the merged value to the database fails.
+		orig := dst
+		dst = make(map[string]any, len(orig))
+		for key, val := range orig {
+			dst[key] = val
+		}
 	}
 
 	for key, val := range src {
